@@ -38,6 +38,7 @@ fn run_case(lines: &[String], out: &mut impl Write) {
     let mut waker: Option<u64> = None;
     let mut ndispatch = 2usize;
     let mut has_closed = false;
+    let mut has_synth = false;
     for l in lines {
         let w: Vec<&str> = l.split_whitespace().collect();
         match w[0] {
@@ -128,6 +129,25 @@ fn run_case(lines: &[String], out: &mut impl Write) {
                     h.insert_source(rx, |_, _, _| {}).unwrap();
                     keep.push(Box::new(tx));
                 }
+                // an Async adapter that nobody awaits (registered with an empty interest); its peer alive or gone
+                "adapteridle" | "adapterclosed" => {
+                    let (a, b) = std::os::unix::net::UnixStream::pair().unwrap();
+                    let io = h.adapt_io(a).unwrap();
+                    keep.push(Box::new(io));
+                    if w[1] == "adapterclosed" {
+                        drop(b);
+                        // (the hang-up is reported once — the registration is one-shot —, to the first dispatch)
+                        has_closed = true;
+                    } else {
+                        keep.push(Box::new(b));
+                    }
+                }
+                // sources with lifecycle hooks: `lifesynth` returns a synthetic event from every before_sleep,
+                // `lifequiet` never does
+                "lifesynth" | "lifequiet" => {
+                    h.insert_source(LifeSrc { synth: w[1] == "lifesynth", token: None }, |_, _, _| {}).unwrap();
+                    has_synth |= w[1] == "lifesynth";
+                }
                 "chanclosed" => {
                     let (tx, rx) = channel::<u8>();
                     h.insert_source(rx, |_, _, _| {}).unwrap();
@@ -171,7 +191,7 @@ fn run_case(lines: &[String], out: &mut impl Write) {
         let r = recs.first().copied();
         writeln!(
             out,
-            "disp {} user={} next={} eff={} elapsed={} fired={} polls={} due={}",
+            "disp {} user={} next={} eff={} elapsed={} fired={} polls={} due={} synth={}",
             i,
             ns(r.and_then(|r| r.user_timeout)),
             ns(r.and_then(|r| r.next_timeout)),
@@ -179,7 +199,8 @@ fn run_case(lines: &[String], out: &mut impl Write) {
             elapsed.as_nanos(),
             fired.borrow().len() - nfired,
             recs.len(),
-            ns(due)
+            ns(due),
+            has_synth as u8
         )
         .unwrap();
         if i == 0 {
@@ -194,6 +215,47 @@ fn run_case(lines: &[String], out: &mut impl Write) {
         }
     }
     drop(keep);
+}
+
+/// a source with lifecycle hooks that registers nothing with the poller
+struct LifeSrc {
+    synth: bool,
+    token: Option<calloop::Token>,
+}
+
+impl calloop::EventSource for LifeSrc {
+    type Event = ();
+    type Metadata = ();
+    type Ret = ();
+    type Error = std::io::Error;
+    const NEEDS_EXTRA_LIFECYCLE_EVENTS: bool = true;
+
+    fn process_events<F>(&mut self, _: calloop::Readiness, _: calloop::Token, mut cb: F) -> Result<calloop::PostAction, Self::Error>
+    where
+        F: FnMut((), &mut ()),
+    {
+        cb((), &mut ());
+        Ok(calloop::PostAction::Continue)
+    }
+    fn register(&mut self, _: &mut calloop::Poll, tf: &mut calloop::TokenFactory) -> calloop::Result<()> {
+        self.token = Some(tf.token());
+        Ok(())
+    }
+    fn reregister(&mut self, _: &mut calloop::Poll, tf: &mut calloop::TokenFactory) -> calloop::Result<()> {
+        self.token = Some(tf.token());
+        Ok(())
+    }
+    fn unregister(&mut self, _: &mut calloop::Poll) -> calloop::Result<()> {
+        self.token = None;
+        Ok(())
+    }
+    fn before_sleep(&mut self) -> calloop::Result<Option<(calloop::Readiness, calloop::Token)>> {
+        Ok(match (self.synth, self.token) {
+            (true, Some(t)) => Some((calloop::Readiness { readable: true, writable: false, error: false }, t)),
+            _ => None,
+        })
+    }
+    fn before_handle_events(&mut self, _: calloop::EventIterator<'_>) {}
 }
 
 pub fn run() -> i32 {
